@@ -841,6 +841,10 @@ mod thr {
             11 => (watch, vec![vec!["join 1 1 1"], vec!["monitor 1 2"]], false, false),
             12 => (watch, vec![vec!["leave 1 0 1"], vec!["demonitorscope 1 2"]], false, false),
             13 => (watch, vec![vec!["join 1 0 2"], vec!["monitorscope 0 1"]], false, false),
+            // `demonitor*` fetches the reverse-index `Arc` before it takes the entry: a first `monitor*` of an actor
+            // that has no reverse-index entry yet, racing with it (the stale reverse-only monitor entry)
+            14 => (vec!["join 1 0 0".to_string()], vec![vec!["monitor 0 1"], vec!["demonitor 0 1"]], false, false),
+            15 => (vec!["join 1 0 0".to_string()], vec![vec!["monitorscope 1 1"], vec!["demonitorscope 1 1", "monitor 0 1"]], false, false),
             _ => return None,
         };
         Some(Spec {
@@ -1186,6 +1190,7 @@ mod thr {
                 x_ever_dead[e] |= xs[e].get_status() >= ActorStatus::Stopping;
             }
             let x_dead_before = x_ever_dead.clone();
+            let had_rel_before: Vec<ActorId> = pg::verif_snapshot().relations.iter().map(|r| r.0).collect();
             let members_before: Vec<Vec<(u64, u64)>> = xs.iter().map(member_keys).collect();
             let listeners_before: Vec<(Vec<(u64, u64)>, Vec<u64>)> = xs.iter().map(listener_keys).collect();
             let is_owner = tid < n_own;
@@ -1276,9 +1281,26 @@ mod thr {
                     ("pg.join.filtered", "join") => Some(line.clone()),
                     ("pg.join.notify", "join") => Some("joinnotify".to_string()),
                     ("pg.leave.notify", "leave") => Some("leavenotify".to_string()),
+                    // `get_or_create_actor_relations`: the (possibly empty) reverse-index entry exists from here on
+                    ("h.act", "monitor") => Some(line.replacen("monitor", "moncreate", 1)),
+                    ("h.act", "monitorscope") => Some(line.replacen("monitorscope", "moncreate", 1)),
                     ("pg.monitor.relations", "monitor") => Some(line.clone()),
                     ("pg.monitor_scope.relations", "monitorscope") => Some(line.clone()),
-                    ("h.act", "leave") | ("h.act", "demonitor") | ("h.act", "demonitorscope") => Some(line.clone()),
+                    ("h.act", "leave") => Some(line.clone()),
+                    // `demonitor*`: the fetch of the reverse-index `Arc` (did it find one?) and the entry region
+                    ("h.act", "demonitor") | ("h.act", "demonitorscope") => {
+                        let b: u64 = lw.get(2).and_then(|x| x.parse().ok()).unwrap_or(0);
+                        let had = match cells.get(&b) {
+                            Some(c) if c.get_status() < ActorStatus::Stopping => {
+                                let id = c.get_id();
+                                if had_rel_before.contains(&id) { "1" } else { "0" }
+                            }
+                            _ => "*",
+                        };
+                        obs = Some(format!("had={had}"));
+                        Some(line.replacen(kind, if kind == "demonitor" { "demfetch" } else { "demsfetch" }, 1))
+                    }
+                    ("pg.demonitor.fetched", "demonitor") | ("pg.demonitor_scope.fetched", "demonitorscope") => Some(line.clone()),
                     ("drain.status", "drain") => Some(line.clone()),
                     ("pg.monitor.recheck", "monitor") => Some(line.replacen("monitor", "monrecheck", 1)),
                     ("pg.monitor_scope.recheck", "monitorscope") => Some(line.replacen("monitorscope", "monscoperecheck", 1)),
